@@ -56,9 +56,16 @@ def scenario (toks : List String) : String :=
     | _, _, _, _, _, _ => "bad-op"
   | _ => "bad-op"
 
+/-- an eighth token lists the writes of which the port took only part ("ws:…"): the driver hands a frame to the
+    port once whatever the port reports as written, so the model's answer does not depend on it -/
+def scenario' (toks : List String) : String :=
+  match toks with
+  | [cfg, ini, reps, wf, rf, ff, calls, _ws] => scenario [cfg, ini, reps, wf, rf, ff, calls]
+  | _ => scenario toks
+
 def step (line : String) : String :=
   match line.splitOn " " with
-  | "P" :: rest => scenario rest
+  | "P" :: rest => scenario' rest
   | ["T", c, a] => match parseHexNat c, parseHexNat a with
     | some c, some a => hexStr (tx c a)
     | _, _ => "bad-op"
